@@ -83,7 +83,8 @@ WORKERS = {"quick": 16, "thorough": 16}
 MAX_INCONCLUSIVE_FRAC = 0.03
 REQUIRE = {"reads": 500, "reads_must_true": 90, "reads_must_false": 250, "stale_probes": 60, "other_id_probes": 100,
            "cancels_received": 400, "ner_served": 20, "ops_FIND": 80, "ops_GET": 80, "ops_MOVE": 80,
-           "subop_injections": 15, "cap_cases": 6, "multi_op_cases": 80, "cancel_final_seen": 30}
+           "subop_injections": 15, "cap_cases": 6, "multi_op_cases": 80, "cancel_final_seen": 30, "cross_association_cases": 6,
+           "cancels_sent_on_other_association": 6}
 
 FIND = "1.2.840.10008.5.1.4.1.2.1.1"
 MOVE = "1.2.840.10008.5.1.4.1.2.1.2"
@@ -670,7 +671,109 @@ def judge(ops, cancels, ners):
 
 
 # ====================================================================================== run_case
+def run_cross_association(case):
+    """Two associations of one acceptor AE: a C-CANCEL sent on association A names the message id of the operation that is
+    running on association B (A's own operation, if any, uses another id).  B's handler must never see it."""
+    from pynetdicom import evt
+    from vlib import peer as vpeer
+    taps.reset()
+    mid = case["mid"]
+    svc = case["svc"]
+    gate_b = threading.Event()
+    parked_b = threading.Event()
+    reads = {"A": [], "B": []}
+    who = {}
+
+    def handler(event):
+        side = who.get(id(event.assoc), "?")
+        if svc == "GET":
+            yield 2
+        if side == "B":
+            parked_b.set()
+            gate_b.wait(5.0)
+        for j in range(2):
+            reads.setdefault(side, []).append(bool(event.is_cancelled))
+            yield 0xFF00, (_find_ds(0, j) if svc == "FIND" else _inst_ds(0, j))
+    sop = FIND if svc == "FIND" else GET
+    ae = harness.make_ae("VERIF-SCP", timeouts=TIMEOUTS, supported=[(FIND, [ILE]), (GET, [ILE]), ("1.2.840.10008.1.1", [ILE]),
+                                                                   dict(abstract_syntax=CT, transfer_syntax=[ILE], scu_role=True, scp_role=True)])
+
+    def on_est(event):
+        who[id(event.assoc)] = "A" if not who else "B"
+    server, port = harness.start_server(ae, [(evt.EVT_C_FIND, handler), (evt.EVT_C_GET, handler), (evt.EVT_ESTABLISHED, on_est),
+                                             (evt.EVT_C_ECHO, lambda e: 0x0000)])
+    viol, obs = [], {"fam": "cross-association", "svc": svc, "mid": mid, "cancels_on_other_association": case["n_cancels"]}
+    counters = {"cases": 1, "cross_association_cases": 1}
+    pa = pb = None
+    inconclusive = None
+    try:
+        pcs = [{"id": 1, "abs": "1.2.840.10008.1.1", "ts": [ILE]}, {"id": 3, "abs": sop, "ts": [ILE]}, {"id": 5, "abs": CT, "ts": [ILE]}]
+        rq = ps38.make_rq(pcs=pcs, extra_ui=[{"k": "role", "uid": CT, "scu": 1, "scp": 1}])
+        pa = vpeer.Peer.connect(port)
+        if (pa.associate(rq) or {}).get("type") != "AC":
+            return {"key": sha(["cross", "setup"]), "nontrivial": False, "sample": obs, "violations": [], "counters": counters, "inconclusive": "A not accepted"}
+        harness.wait_for(lambda: len(who) == 1, 2.0)
+        pb = vpeer.Peer.connect(port)
+        if (pb.associate(rq) or {}).get("type") != "AC":
+            return {"key": sha(["cross", "setup"]), "nontrivial": False, "sample": obs, "violations": [], "counters": counters, "inconclusive": "B not accepted"}
+        harness.wait_for(lambda: len(who) == 2, 2.0)
+        kind = "C-FIND-RQ" if svc == "FIND" else "C-GET-RQ"
+        pb.send_dimse(3, cmdset.make(kind, AffectedSOPClassUID=sop, MessageID=mid, Priority=0, CommandDataSetType=0), IDENT)
+        if not parked_b.wait(4.0):
+            inconclusive = "B's handler never parked"
+        else:
+            for _ in range(case["n_cancels"]):
+                pa.send_dimse(3, cmdset.make("C-CANCEL-RQ", MessageIDBeingRespondedTo=mid, CommandDataSetType=0x0101))
+            # (no request is sent on A afterwards: serving one would legitimately reset A's pending cancels) - give A's provider
+            # time to take the cancels off its stream
+            time.sleep(0.3)
+            counters["cancels_sent_on_other_association"] = case["n_cancels"]
+            gate_b.set()
+            finals = []
+            t_end = time.time() + 6.0
+            while time.time() < t_end:
+                m = pb.recv_dimse(0.5)
+                if m is None:
+                    continue
+                if m.get("type") != "DIMSE":
+                    break
+                cf = m["cmd"].get("CommandField")
+                if cf == 0x0001:      # C-STORE sub-operation of the C-GET: answer it
+                    pb.send_dimse(m["ctx"], cmdset.make("C-STORE-RSP", AffectedSOPClassUID=m["cmd"].get("AffectedSOPClassUID"),
+                                                        MessageIDBeingRespondedTo=m["cmd"].get("MessageID"), Status=0,
+                                                        AffectedSOPInstanceUID=m["cmd"].get("AffectedSOPInstanceUID"), CommandDataSetType=0x0101))
+                    continue
+                if m["cmd"].get("Status") not in (0xFF00, 0xFF01):
+                    finals.append(m["cmd"].get("Status"))
+                    break
+            obs["b_reads"] = list(reads["B"])
+            obs["b_final"] = finals
+            counters["reads"] = len(reads["B"])
+            counters["reads_must_false"] = len(reads["B"])
+            if any(reads["B"]):
+                viol.append({"key": "cancel-misrouted|other-association|same-message-id|%s" % svc,
+                             "detail": "%d C-CANCEL(s) naming message id %d were sent on association A; the %s handler running on association B "
+                                       "(message id %d) read is_cancelled = %r" % (case["n_cancels"], mid, svc, mid, reads["B"])})
+            if not reads["B"]:
+                inconclusive = "B's handler never read is_cancelled"
+        for p_ in (pa, pb):
+            try:
+                p_.release(1.0)
+            except Exception:
+                pass
+    finally:
+        gate_b.set()
+        for p_ in (pa, pb):
+            if p_ is not None:
+                p_.close()
+        harness.stop_ae(ae, 2.0)
+    return {"key": sha(["cross", svc, mid, case["n_cancels"]]), "nontrivial": bool(reads["B"]), "sample": obs, "violations": viol,
+            "counters": counters, "inconclusive": inconclusive}
+
+
 def run_case(case):
+    if case.get("cross"):
+        return run_cross_association(case)
     from pynetdicom import evt
     taps.reset()
     log = Log()
@@ -1015,6 +1118,10 @@ def gen_cases(tier, seed):
     n_rand = max(60, total - len(cases))
     for i in range(n_rand):
         cases.append(_random_case(rng_for(seed, PID, "rand", tier, i)))
+    for i in range(8 if tier == "quick" else 120):
+        r_ = rng_for(seed, PID, "cross", tier, i)
+        cases.append({"cross": True, "svc": r_.choice(["FIND", "GET"]), "mid": r_.choice([0, 1, 7, 65535, r_.randrange(65536)]),
+                      "n_cancels": r_.choice([1, 1, 3, 11])})
     for i, c in enumerate(cases):
         c["n"] = i
     return cases
